@@ -544,6 +544,41 @@ def example_case(name):
     return case, raw
 
 
+def sbt_case(rng, name, k=0):
+    """Closed-loop SBT family (SBTReservoir / SBTWellbores / SBTEconomics): a shipped SBT case with its cost inputs,
+    incentives, prices, schedule and economic model redrawn; k cycles the directed ingredients so that a handful of cases
+    always contains several construction years, ITC together with grants / incentives / fees, and correlated as well as
+    user-fixed cost components."""
+    case, raw = example_case(name)
+    life = rng.choice([7, 15, 25, 30, 35])
+    cset(case, 'Plant Lifetime', life)
+    cset(case, 'Construction Years', rng.choice([2, 3, 4, 7]) if k % 3 == 0 else rng.choice([1, 1, 2]))
+    cset(case, 'Economic Model', rng.choice([1, 2, 3, 3]))
+    cset(case, 'Utilization Factor', _round(rng.uniform(0.5, 1.0), 3))
+    cset(case, 'Inflation Rate During Construction', _round(rng.uniform(0, 0.1), 3))
+    # cost inputs: drop the example's fixed figures first so that correlated components are exercised as well
+    for fixed, adj, (lo, hi) in COST_COMPONENTS:
+        cdel(case, fixed)
+        cdel(case, adj)
+    for kk, v in cost_block(rng, 1, 2):
+        if kk in ('Total Capital Cost', 'Total O&M Cost') and k % 2 == 0:
+            continue
+        cset(case, kk, v)
+    if k % 3 == 1:
+        cset(case, 'Investment Tax Credit Rate', _round(rng.uniform(0.05, 0.5), 3))
+        cset(case, 'One-time Grants Etc', _round(rng.uniform(0.5, 8), 3))
+        cset(case, 'Other Incentives', _round(rng.uniform(0.5, 5), 3))
+        cset(case, 'One-time Flat License Fees Etc', _round(rng.uniform(0.5, 5), 3))
+        cset(case, 'Annual License Fees Etc', _round(rng.uniform(0, 0.5), 3))
+        cset(case, 'Tax Relief Per Year', _round(rng.uniform(0, 0.5), 3))
+    else:
+        for kk, v in incentive_block(rng, life):
+            cset(case, kk, v)
+    for kk, v in price_block(rng, life):
+        cset(case, kk, v)
+    return case, raw
+
+
 def perturb_example(rng, name, strength=0.5):
     """Shipped example with a handful of economic / operating parameters redrawn (keeps the physics runnable)."""
     case, raw = example_case(name)
